@@ -10,6 +10,7 @@ from ..bfs import bfs
 from ..common import Report, pmap
 from ..e1 import E1Sink, gate, replay_case, vacuity_floor
 from ..explore import explore
+from ..optsweep import sweep_jobs
 
 PID = "C19"
 MON = ["C19", "C19iso"]
@@ -258,6 +259,8 @@ def run(ctx):
                  cap=None if q else st["executions"] + 30000)
     dt = [job(D, g, "det", "adv", seeds[0], 30 + 15 * D, opts={"tol_mesh": 2.0**-4}, base=b) for D in Ds for g in ("lin", "log") for b in ("F", "S4")]
     st = explore(dt, ["ans"], 1, sink, stats=st, name="det/ans-b1", pos_ok=(lambda k, p, r: p < 14) if q else None)
+    sw = sweep_jobs(lambda D, m, o: job(D, "lin", m, "sphere_in", seeds[0], 45 if m == "det" else 64, nfs=o.pop("noise_final_samples", 2), opts=o), q, modes=("det", "decl", "spec"))
+    st = explore(sw, ["ans", "noise"], 0, sink, stats=st, name="option-variants")
     sink.finish_cov(st)
     rep.set("states", max(1, st_h["states"] + len(sink.states)))
     rep.set("transitions", max(1, st_h["transitions"] + len(sink.trans)))
